@@ -2,7 +2,7 @@
    for every argument of usize, every bit vector within capacity, every build configuration
    (pinned statements). *)
 From Sucds Require Import Base.Res Spec.BitSpec Model.BitVector Model.Rank9 Model.DArray
-  Proofs.BVAbs Proofs.IndexSpecs Proofs.DAMain.
+  Proofs.BVAbs Proofs.IndexSpecs Proofs.DAMain Proofs.Integration.
 Open Scope N_scope.
 
 (* the select index (DArrayIndex::new / select): one index value for every configuration,
@@ -36,30 +36,23 @@ Theorem C02_enable_select0_correct : forall d, (forall c, da_correct c d) -> cap
 Proof. exact da_enable_select0_correct. Qed.
 Print Assumptions C02_enable_select0_correct.
 
-(* DArray::enable_rank, given the correctness of the Rank9 rank index (property C03) *)
+(* DArray::enable_rank (the correctness of the Rank9 rank index it relies on is
+   Integration.r9rank_ok_holds, from Proofs/R9Build.v and Proofs/R9Rank.v) *)
 Theorem C02_enable_rank_correct :
-  (forall bv, wf bv -> cap_ok bv -> exists r,
-     (forall c, Rank9.build_rank c bv = Ok r) /\
-     (forall c i, i < W -> Rank9.rank1 c r bv i = Ok (BitSpec.rank true (bits_of bv) i) /\
-                           Rank9.rank0 c r bv i = Ok (BitSpec.rank false (bits_of bv) i))) ->
   forall d, (forall c, da_correct c d) -> cap_ok (da_bv d) ->
   exists d', (forall c, da_enable_rank c d = Ok d') /\
              da_bv d' = da_bv d /\ da_s1 d' = da_s1 d /\ da_s0 d' = da_s0 d /\ da_r9 d' <> None /\
              (forall c, da_correct c d').
-Proof. exact da_enable_rank_correct. Qed.
+Proof. exact da_enable_rank_closed. Qed.
 Print Assumptions C02_enable_rank_correct.
 
-(* Build::build_from_bits(_, with_rank, _, with_select0), same premise *)
+(* Build::build_from_bits(_, with_rank, _, with_select0) *)
 Theorem C02_build_cfg_correct :
-  (forall bv, wf bv -> cap_ok bv -> exists r,
-     (forall c, Rank9.build_rank c bv = Ok r) /\
-     (forall c i, i < W -> Rank9.rank1 c r bv i = Ok (BitSpec.rank true (bits_of bv) i) /\
-                           Rank9.rank0 c r bv i = Ok (BitSpec.rank false (bits_of bv) i))) ->
   forall bv wr ws0, wf bv -> cap_ok bv ->
   exists d, (forall c, da_build_cfg c bv wr ws0 = Ok d) /\ da_bv d = bv /\
             (da_s0 d <> None <-> ws0 = true) /\ (da_r9 d <> None <-> wr = true) /\
             (forall c, da_correct c d).
-Proof. exact da_build_cfg_correct. Qed.
+Proof. exact da_build_cfg_closed. Qed.
 Print Assumptions C02_build_cfg_correct.
 
 (* concrete runs, both profiles: a dense 5000-bit vector (several blocks of 1024 positions for
